@@ -23,10 +23,12 @@ WrFailures(ev) ==
   \* a panic on a bundle that must be refused anyway is a (crude) refusal; on a writable bundle it is a failure
   IN (IF ev.wpanic /\ ~Refused(b) THEN {"writer panics"} ELSE {})
   \cup (IF Refused(b) = ev.werr THEN {} ELSE {IF ev.werr THEN "writer refuses a bundle it must write" ELSE "writer accepts a bundle it must refuse"})
-  \cup (IF ev.werr \/ Refused(b) THEN {}
+  \* whatever the writer emits without error is judged (C04), also when it should have refused
+  \cup (IF ev.werr THEN {}
         ELSE (IF ev.count = Len(ev.file) /\ ev.accepted = Len(ev.file) THEN {} ELSE {"returned byte count"})
-        \cup (IF WellFormedBundle(ev.file, b.ver) THEN {} ELSE {"output is not a well-formed canonical bundle"})
-        \cup (IF x.res = "ok" /\ x.exs = ExpectedRead(b) /\ x.ver = b.ver
+        \cup (IF WellFormedBundle(ev.file, b.ver) THEN {} ELSE {"output is not a well-formed canonical bundle"}))
+  \cup (IF ev.werr \/ Refused(b) THEN {}
+        ELSE (IF x.res = "ok" /\ x.exs = ExpectedRead(b) /\ x.ver = b.ver
                  /\ (b.hasprimary => x.primary = b.primary) /\ x.hasmanifest = b.hasmanifest /\ (b.hasmanifest => x.manifest = b.manifest)
               THEN {} ELSE {"file does not hold the exchanges of the bundle (dropped / duplicated / mis-attributed / order)"})
         \cup (IF ev.verdict = "ok" /\ (x.res # "ok" \/ SameAsExtract(ev.b2, x)) THEN {} ELSE {"reader does not return what the file holds"})
